@@ -118,6 +118,44 @@ fn explore(ctx: &Ctx) -> Outcome {
         .reduce(Tally::new, Tally::merge);
     layers.push(json!({"family": "length sweep: label name / string lengths 0..=48, shared or not", "archives": sweep.len(), "completed": true}));
     total.absorb(t);
+    // long multi-byte strings at every alignment
+    let mb = binfam::multibyte_alignment();
+    let t = mb
+        .par_iter()
+        .fold(Tally::new, |mut t, c| {
+            t.cases += 1;
+            t.nontrivial += 1;
+            if let Some((sig, summary)) = judge(c, &mut t, true) {
+                t.violate(sig, summary.chars().take(500).collect::<String>(), binfam::describe(c));
+            }
+            t
+        })
+        .reduce(Tally::new, Tally::merge);
+    layers.push(json!({"family": "strings of 62..403 Shift-JIS bytes made of two-byte characters at byte alignments 0..3", "archives": mb.len(), "completed": true}));
+    total.absorb(t);
+    // call histories: a failing parse (every truncation of an image) followed by a good parse on one thread
+    {
+        let mut c = Content::new(vcore::ref_bin::End::Little);
+        c.data = vec![0; 12];
+        c.strings.insert(0, "first".into());
+        c.pointers.insert(4, 8);
+        c.cstrings.insert(8, "pool".into());
+        c.labels.insert(0, vec!["Lab".into(), "Lab2".into()]);
+        c.labels.insert(12, vec!["End".into()]);
+        let img = ref_bin::write_canonical(&ref_bin::materialise_cstrings(&c));
+        let mut t = Tally::new();
+        for cut in 0..img.len() {
+            let _ = util::catch(|| BinArchive::from_bytes(&img[..cut], arch::endian(c.endian)).map(|a| a.size()).map_err(|e| e.to_string()));
+            t.cases += 1;
+            t.nontrivial += 1;
+            if let Some((sig, summary)) = judge(&c, &mut t, false) {
+                t.violate(format!("after-failed-parse:{}", sig), format!("right after parsing the first {} bytes of an image: {}", cut, summary), json!({"after_cut": cut}));
+                break;
+            }
+        }
+        layers.push(json!({"family": "call histories: failing parse of every truncation, then a full round trip, on one thread", "cuts": img.len(), "completed": true}));
+        total.absorb(t);
+    }
     // large archives (tables and text beyond 64 KiB)
     for c in binfam::big_cases() {
         let mut t = Tally::new();
@@ -144,6 +182,19 @@ fn explore(ctx: &Ctx) -> Outcome {
 }
 
 fn replay(_ctx: &Ctx, case: &Value) -> Vec<Violation> {
+    if let Some(cut) = case["after_cut"].as_u64() {
+        let mut c = Content::new(vcore::ref_bin::End::Little);
+        c.data = vec![0; 12];
+        c.strings.insert(0, "first".into());
+        c.pointers.insert(4, 8);
+        c.cstrings.insert(8, "pool".into());
+        c.labels.insert(0, vec!["Lab".into(), "Lab2".into()]);
+        c.labels.insert(12, vec!["End".into()]);
+        let img = ref_bin::write_canonical(&ref_bin::materialise_cstrings(&c));
+        let _ = util::catch(|| BinArchive::from_bytes(&img[..(cut as usize).min(img.len())], arch::endian(c.endian)).map(|a| a.size()).map_err(|e| e.to_string()));
+        let mut t = Tally::new();
+        return judge(&c, &mut t, false).map(|(sig, summary)| vec![Violation { sig: format!("after-failed-parse:{}", sig), summary, case: case.clone() }]).unwrap_or_default();
+    }
     if let Some(tag) = case["big"].as_str() {
         let mut out = Vec::new();
         for c in binfam::big_cases() {
